@@ -188,15 +188,15 @@ def driver_part(ck: Check):
     from hiten.algorithms.hamiltonian.center._lie import _lie_transform as lie_partial
     from hiten.algorithms.hamiltonian.normal._lie import _lie_transform as lie_full
     from hiten.algorithms.polynomial.base import _init_index_tables
-    r = tlc(SPEC / "algo" / "MCLieDriver.tla", SPEC / "cfg" / "LieDriver.cfg", timeout=600)
+    r = tlc(SPEC / "algo" / "MCLieDriver.tla", SPEC / "cfg" / ("LieDriver.quick.cfg" if ck.quick else "LieDriver.cfg"), timeout=600)
     ck.model("LieDriver", r)
-    rb = tlc(SPEC / "algo" / "MCLieDriver.tla", SPEC / "cfg" / "LieDriver.break.cfg", timeout=600)
+    rb = tlc(SPEC / "algo" / "MCLieDriver.tla", SPEC / "cfg" / ("LieDriver.break.quick.cfg" if ck.quick else "LieDriver.break.cfg"), timeout=600)
     if rb.invariant_violated != "NothingBadSurvives":
         raise MachineryError("LieDriver non-vacuity variant (break instead of continue) was not refuted by TLC")
     shapes = [x["shape"] for x in r.printed() if "shape" in x]
-    if len(shapes) < 20:
+    N = 4 if ck.quick else 5
+    if len(shapes) < 3 ** (N - 2):
         raise MachineryError("LieDriver emitted too few shapes")
-    N = 5
     psi, clmo = _init_index_tables(N)
     lam, w1, w2 = 2.0, math.sqrt(2.0), math.sqrt(5.0)
     pt = _ModesPoint(lam, w1, w2)
